@@ -16,24 +16,39 @@ Banks == {"bk1", "bk2"}
 
 \* methods: cls, name, ret: "num"|"obj"|"vecnum"|"vecobj", kind (C++ scalar kind or target class), declared?
 Methods == <<
-  [cls |-> "A", name |-> "pt",   ret |-> "num",    kind |-> "double", declared |-> FALSE],
-  [cls |-> "A", name |-> "eta",  ret |-> "num",    kind |-> "double", declared |-> FALSE],
-  [cls |-> "A", name |-> "a",    ret |-> "num",    kind |-> "double", declared |-> FALSE],
-  [cls |-> "A", name |-> "b",    ret |-> "num",    kind |-> "double", declared |-> FALSE],
-  [cls |-> "A", name |-> "n",    ret |-> "num",    kind |-> "int",    declared |-> TRUE],
-  [cls |-> "A", name |-> "m",    ret |-> "num",    kind |-> "float",  declared |-> TRUE],
-  [cls |-> "A", name |-> "ok",   ret |-> "num",    kind |-> "bool",   declared |-> TRUE],
-  [cls |-> "A", name |-> "vals", ret |-> "vecnum", kind |-> "float",  declared |-> TRUE],
-  [cls |-> "A", name |-> "trks", ret |-> "vecobj", kind |-> "T",      declared |-> TRUE],
-  [cls |-> "A", name |-> "link", ret |-> "obj",    kind |-> "A",      declared |-> TRUE],
-  [cls |-> "B", name |-> "pt",   ret |-> "num",    kind |-> "double", declared |-> FALSE],
-  [cls |-> "B", name |-> "eta",  ret |-> "num",    kind |-> "double", declared |-> FALSE],
-  [cls |-> "T", name |-> "pt",   ret |-> "num",    kind |-> "double", declared |-> FALSE],
-  [cls |-> "T", name |-> "q",    ret |-> "num",    kind |-> "int",    declared |-> TRUE],
-  [cls |-> "M", name |-> "pt",   ret |-> "num",    kind |-> "double", declared |-> FALSE],
-  [cls |-> "I", name |-> "runNumber", ret |-> "num", kind |-> "double", declared |-> FALSE],
-  [cls |-> "Z", name |-> "pt",   ret |-> "num",    kind |-> "double", declared |-> FALSE]
+  [cls |-> "A", name |-> "pt",   ret |-> "num",    kind |-> "double", declared |-> FALSE, mode |-> "std", deref |-> 0],
+  [cls |-> "A", name |-> "eta",  ret |-> "num",    kind |-> "double", declared |-> FALSE, mode |-> "std", deref |-> 0],
+  [cls |-> "A", name |-> "a",    ret |-> "num",    kind |-> "double", declared |-> FALSE, mode |-> "std", deref |-> 0],
+  [cls |-> "A", name |-> "b",    ret |-> "num",    kind |-> "double", declared |-> FALSE, mode |-> "std", deref |-> 0],
+  [cls |-> "A", name |-> "n",    ret |-> "num",    kind |-> "int",    declared |-> TRUE, mode |-> "std", deref |-> 0],
+  [cls |-> "A", name |-> "m",    ret |-> "num",    kind |-> "float",  declared |-> TRUE, mode |-> "std", deref |-> 0],
+  [cls |-> "A", name |-> "ok",   ret |-> "num",    kind |-> "bool",   declared |-> TRUE, mode |-> "std", deref |-> 0],
+  [cls |-> "A", name |-> "vals", ret |-> "vecnum", kind |-> "float",  declared |-> TRUE, mode |-> "std", deref |-> 0],
+  [cls |-> "A", name |-> "trks", ret |-> "vecobj", kind |-> "T",      declared |-> TRUE, mode |-> "std", deref |-> 0],
+  [cls |-> "A", name |-> "link", ret |-> "obj",    kind |-> "A",      declared |-> TRUE, mode |-> "std", deref |-> 0],
+  [cls |-> "B", name |-> "pt",   ret |-> "num",    kind |-> "double", declared |-> FALSE, mode |-> "std", deref |-> 0],
+  [cls |-> "B", name |-> "eta",  ret |-> "num",    kind |-> "double", declared |-> FALSE, mode |-> "std", deref |-> 0],
+  [cls |-> "T", name |-> "pt",   ret |-> "num",    kind |-> "double", declared |-> FALSE, mode |-> "std", deref |-> 0],
+  [cls |-> "T", name |-> "q",    ret |-> "num",    kind |-> "int",    declared |-> TRUE, mode |-> "std", deref |-> 0],
+  [cls |-> "M", name |-> "pt",   ret |-> "num",    kind |-> "double", declared |-> FALSE, mode |-> "std", deref |-> 0],
+  [cls |-> "I", name |-> "runNumber", ret |-> "num", kind |-> "double", declared |-> FALSE, mode |-> "std", deref |-> 0],
+  [cls |-> "Z", name |-> "pt",   ret |-> "num",    kind |-> "double", declared |-> FALSE, mode |-> "std", deref |-> 0],
+  \* C10: the signature space (after trks in this list, so that T objects exist when events are built)
+  [cls |-> "A", name |-> "tv",     ret |-> "obj",    kind |-> "T",   declared |-> TRUE, mode |-> "byvalue",  deref |-> 0],
+  [cls |-> "A", name |-> "tpp",    ret |-> "obj",    kind |-> "T",   declared |-> TRUE, mode |-> "ptr2",     deref |-> 0],
+  [cls |-> "A", name |-> "valsp",  ret |-> "vecnum", kind |-> "float", declared |-> TRUE, mode |-> "collptr", deref |-> 0],
+  [cls |-> "A", name |-> "tref",   ret |-> "obj",    kind |-> "R1",  declared |-> TRUE, mode |-> "byvalue",  deref |-> 0],
+  [cls |-> "A", name |-> "trefref", ret |-> "obj",   kind |-> "R2",  declared |-> TRUE, mode |-> "byvalue",  deref |-> 0],
+  [cls |-> "A", name |-> "code",   ret |-> "num",    kind |-> "int", declared |-> TRUE, mode |-> "treetype", deref |-> 0],
+  [cls |-> "A", name |-> "color",  ret |-> "num",    kind |-> "int", declared |-> TRUE, mode |-> "enum",     deref |-> 0],
+  [cls |-> "A", name |-> "colorIs", ret |-> "num",   kind |-> "int", declared |-> TRUE, mode |-> "enumarg",  deref |-> 0],
+  \* R1 / R2: smart references to a T (one / two extra dereferences to reach its methods)
+  [cls |-> "R1", name |-> "q",   ret |-> "num", kind |-> "int",    declared |-> TRUE, mode |-> "std", deref |-> 1],
+  [cls |-> "R1", name |-> "pt",  ret |-> "num", kind |-> "double", declared |-> TRUE, mode |-> "std", deref |-> 1],
+  [cls |-> "R2", name |-> "q",   ret |-> "num", kind |-> "int",    declared |-> TRUE, mode |-> "std", deref |-> 2]
 >>
+EnumValues == <<"Red", "Blue">>        \* enum Color inside class A: Red = 0, Blue = 1
+EnumIndex(v) == (CHOOSE i \in DOMAIN EnumValues : EnumValues[i] = v) - 1
 
 MethodsOf(c, ret) == {i \in DOMAIN Methods : Methods[i].cls = c /\ Methods[i].ret = ret}
 
@@ -69,10 +84,22 @@ ColTerms(q) == CASE q.k = "Select" -> Cells(q.ch[2])
                  [] q.k = "SelectMany" -> ElemCells(q.ch[2])
                  [] q.k \in {"Where", "Root"} -> ColTerms(q.ch[1])
                  [] OTHER -> {}
-NCols(q) == LET rt == TypeOf(q, <<>>, [collClass |-> CollClass, collType |-> CollClass, decls |-> Decls]).e IN
+NCols(q) == LET rt == TypeOf(q, <<>>, [collClass |-> CollClass, collType |-> CollClass, decls |-> Decls, declared |-> {}]).e IN
             IF rt.t \in {"tup", "dict"} THEN Len(rt.v) ELSE 1
 \* a column / label count mismatch in an explicit AsROOTTTree is an error
+\* arithmetic directly on a value whose declared C++ type is not one of int/float/double/bool
+\* (a typedef, an enum): the documentation is silent - MAY; such values are exercised as columns,
+\* in comparisons with enum values, and as arguments
+OpaqueNames == {Methods[i].name : i \in {i \in DOMAIN Methods : Methods[i].mode \in {"treetype", "enum"}}}
+RECURSIVE HasOpaqueArith(_)
+HasOpaqueArith(q) ==
+  \/ /\ q.k \in {"Bin", "Un", "Cmp", "Math", "If"}
+     /\ \E i \in DOMAIN q.ch : q.ch[i].k = "Meth" /\ q.ch[i].a \in OpaqueNames
+  \/ /\ q.k \in {"Sum", "Min", "Max", "Aggregate"}
+     /\ q.ch[1].k = "Select" /\ q.ch[1].ch[2].k = "Meth" /\ q.ch[1].ch[2].a \in OpaqueNames
+  \/ \E i \in DOMAIN q.ch : HasOpaqueArith(q.ch[i])
 Support(q) == IF q.k = "Root" /\ q.n # NCols(q.ch[1]) THEN "MUST_REJECT"
+              ELSE IF HasOpaqueArith(q) THEN "MAY"
               ELSE IF \E c \in ColTerms(q) : IsVecTerm(c) THEN "MAY" ELSE "MUST_ACCEPT"
 
 \* per backend: python collection name, C++ container type, C++ element type, elements held by pointer?
@@ -89,7 +116,7 @@ Backends == [
                 S  |-> Ent("EventInfo", "xAOD::EventInfo",              "xAODEventInfo/EventInfo.h",              "xAODEventInfo"),
                 Z  |-> Ent("VpZeds",    "vp::ZedContainer",             "vp_zed/ZedContainer.h",                  "vpZedLib")],
      classes |-> [A |-> "xAOD::Jet", B |-> "xAOD::Electron", T |-> "xAOD::TrackParticle", M |-> "xAOD::Muon",
-                  I |-> "xAOD::EventInfo", Z |-> "vp::Zed"],
+                  I |-> "xAOD::EventInfo", Z |-> "vp::Zed", R1 |-> "vp::TRef", R2 |-> "vp::TRefRef"],
      altA |-> "vp::AltJetContainer",
      elemptr |-> TRUE],
   cms_aod |-> [
@@ -100,7 +127,7 @@ Backends == [
                 S  |-> NoColl,
                 Z  |-> Ent("VpZeds",       "vp::ZedCollection",           "vp_zed/ZedCollection.h", "")],
      classes |-> [A |-> "reco::Muon", B |-> "reco::GsfElectron", T |-> "reco::Track", M |-> "reco::Vertex",
-                  I |-> "vp::NoInfo", Z |-> "vp::Zed"],
+                  I |-> "vp::NoInfo", Z |-> "vp::Zed", R1 |-> "vp::TRef", R2 |-> "vp::TRefRef"],
      altA |-> "vp::AltMuonCollection",
      elemptr |-> FALSE],
   cms_miniaod |-> [
@@ -111,7 +138,7 @@ Backends == [
                 S  |-> NoColl,
                 Z  |-> Ent("VpZeds",    "vp::ZedCollection",       "vp_zed/ZedCollection.h", "")],
      classes |-> [A |-> "pat::Muon", B |-> "pat::Electron", T |-> "reco::Track", M |-> "reco::Vertex",
-                  I |-> "vp::NoInfo", Z |-> "vp::Zed"],
+                  I |-> "vp::NoInfo", Z |-> "vp::Zed", R1 |-> "vp::TRef", R2 |-> "vp::TRefRef"],
      altA |-> "vp::AltMuonCollection",
      elemptr |-> FALSE]
 ]
@@ -124,27 +151,45 @@ DeclVariants == {"none", "fresh_Z", "replace_A"}
 CollTypeV(backend, v) == [c \in DOMAIN CollClass |->
                             IF v = "replace_A" /\ c = "A" THEN Backends[backend].altA ELSE Backends[backend].colls[c].ctype]
 LibOf(backend, c) == Backends[backend].colls[c].lib
-SigForV(backend, v) == [collClass |-> CollClass, collType |-> CollTypeV(backend, v), decls |-> Decls]
+DeclaredKeys == {Methods[i].cls \o "." \o Methods[i].name : i \in {i \in DOMAIN Methods : Methods[i].declared}}
+SigForV(backend, v) == [collClass |-> CollClass, collType |-> CollTypeV(backend, v), decls |-> Decls, declared |-> DeclaredKeys]
 SigFor(backend) == [collClass |-> CollClass,
                     collType |-> CollTypeV(backend, "none"),
-                    decls |-> Decls]
+                    decls |-> Decls, declared |-> DeclaredKeys]
 
 \* how a method's declared return type is spelled in C++ / in the metadata, per backend
 CppRet(m, b) ==
-  CASE m.ret = "num"    -> m.kind
-    [] m.ret = "obj"    -> Backends[b].classes[m.kind] \o "*"
-    [] m.ret = "vecnum" -> m.kind
-    [] m.ret = "vecobj" -> Backends[b].classes[m.kind] \o (IF Backends[b].elemptr THEN "*" ELSE "")
+  CASE m.mode = "byvalue"  -> Backends[b].classes[m.kind]
+    [] m.mode = "ptr2"     -> Backends[b].classes[m.kind] \o "**"
+    [] m.mode = "treetype" -> "vp::Code"
+    [] m.mode = "enum"     -> Backends[b].classes.A \o "::Color"
+    [] m.ret = "num"       -> m.kind
+    [] m.ret = "obj"       -> Backends[b].classes[m.kind] \o "*"
+    [] m.ret = "vecnum"    -> m.kind
+    [] m.ret = "vecobj"    -> Backends[b].classes[m.kind] \o (IF Backends[b].elemptr THEN "*" ELSE "")
 
 \* the MetaData declarations attached to every query on backend b (declared methods only)
 Declared == SelectSeq(Methods, LAMBDA m : m.declared)
-MdFor(b) == [i \in 1..Len(Declared) |->
-               LET m == Declared[i] IN
+\* python-dotted namespace that hosts enum Color on backend b ("xAOD.Jet"), and the enum declaration
+DotNs(b) == CASE b = "atlas" -> "xAOD.Jet" [] b = "cms_aod" -> "reco.Muon" [] b = "cms_miniaod" -> "pat.Muon"
+EnumMd(b) == [metadata_type |-> "define_enum", namespace |-> DotNs(b), name |-> "Color", values |-> EnumValues]
+
+\* base declarations (attached to every query) / the C10 signature space (attached to C10 cases only)
+IsBase(m) == m.mode = "std" /\ m.cls \notin {"R1", "R2"}
+DeclaredBase == SelectSeq(Declared, IsBase)
+DeclaredC10 == SelectSeq(Declared, LAMBDA m : ~IsBase(m))
+MdOf(ms, b) == [i \in 1..Len(ms) |->
+               LET m == ms[i] IN
                [metadata_type |-> "add_method_type_info",
                 type_string |-> Backends[b].classes[m.cls],
                 method_name |-> m.name,
                 return_type |-> IF m.ret \in {"num", "obj"} THEN CppRet(m, b) ELSE "",
-                return_type_element |-> IF m.ret \in {"vecnum", "vecobj"} THEN CppRet(m, b) ELSE ""]]
+                return_type_element |-> IF m.ret \in {"vecnum", "vecobj"} THEN CppRet(m, b) ELSE "",
+                return_type_collection |-> IF m.mode = "collptr" THEN "std::vector<" \o m.kind \o ">*" ELSE "",
+                tree_type |-> IF m.mode \in {"treetype", "enum"} THEN "int" ELSE "",
+                deref_count |-> m.deref]]
+MdFor(b) == MdOf(DeclaredBase, b)
+Md10For(b) == MdOf(DeclaredC10, b)
 
 FnMd(f, b) == [metadata_type |-> "add_cpp_function", name |-> f.id,
                include_files |-> IF f.include = "" THEN <<>> ELSE <<f.include>>,
@@ -170,11 +215,15 @@ CollMd(b, v) ==
 UniverseRecord == [methods |-> [i \in 1..Len(Methods) |->
                                   [cls |-> Methods[i].cls, name |-> Methods[i].name, ret |-> Methods[i].ret,
                                    kind |-> Methods[i].kind, declared |-> Methods[i].declared,
+                                   mode |-> Methods[i].mode, deref |-> Methods[i].deref,
                                    cpp |-> [b \in BackendNames |-> CppRet(Methods[i], b)]]],
                    backends |-> Backends,
                    md |-> [b \in BackendNames |-> MdFor(b)],
+                   md10 |-> [b \in BackendNames |-> Md10For(b)],
                    collmd |-> [b \in BackendNames |-> [v \in {"fresh_Z", "replace_A"} |-> CollMd(b, v)]],
                    altHeader |-> AltHeader,
+                   enummd |-> [b \in BackendNames |-> EnumMd(b)],
+                   dotns |-> [b \in BackendNames |-> DotNs(b)],
                    fnmd |-> [b \in BackendNames |-> [i \in DOMAIN UserFns |-> FnMd(UserFns[i], b)]],
                    collClass |-> CollClass, singletons |-> Singletons]
 =============================================================================
